@@ -2,7 +2,7 @@ package main
 
 // Registry of checks: which harness runs on which configurations per tier.
 
-const nCoreTables = 42
+const nCoreTables = 43
 
 func curlyOnly(tbl int) bool {
 	return tbl == 2 || tbl == 3 || tbl == 6 || tbl == 18 || tbl == 22 || tbl == 28 || tbl == 37
@@ -121,17 +121,21 @@ func properties() map[string]*propDef {
 		ID: "C04",
 		Items: func(tier string, seed int) []item {
 			it := routingItems("H_C04", func(tbl int) []int {
+				st := []int{0}
 				if tier == "thorough" {
-					return []int{0, 3}
+					st = []int{0, 3}
 				}
-				return []int{0}
+				if curlyOnly(tbl) || tbl == 0 || tbl == 15 {
+					st = append(st, 5) // the same after Container.Router was called again (other router, then this one)
+				}
+				return st
 			})(tier, seed)
 			return it
 		},
 		Bounds:         routingBounds,
 		Assumptions:    commonAssumptions,
 		Rule:           "core route tables x routers; GET request with symbolic path; stage 3 (thorough) adds the substitute-back round trip at path capacity 8",
-		RequiredCovers: []string{"invoked", "not-invoked", "judged"},
+		RequiredCovers: []string{"invoked", "not-invoked", "judged", "router-set-again"},
 	}
 	m["C14"] = &propDef{
 		ID: "C14",
@@ -300,6 +304,9 @@ func properties() map[string]*propDef {
 				if tier == "thorough" {
 					out = append(out, item{Harness: "H_C09", Cfg: []int{100 + cfg}, Label: "the same with <= 3 requested headers in <= 13 bytes and an allowed-header entry of <= 6 bytes"})
 				}
+				if cfg < 2 || tier == "thorough" {
+					out = append(out, item{Harness: "H_C09", Cfg: []int{4 + cfg}, Label: "the same configuration, the request's own Host being the host the Origin names (no second header line, no earlier preflight)"})
+				}
 			}
 			return out
 		},
@@ -307,7 +314,7 @@ func properties() map[string]*propDef {
 			"method_bytes": 7, "urls": 2, "sequence": "optional earlier preflight to the other URL"},
 		Assumptions:    commonAssumptions,
 		Rule:           "allowed origin fixed; method, Access-Control-Request-Method/-Headers, one allowed-header entry, cookies flag, target URL and an optional earlier preflight to the other URL are symbolic",
-		RequiredCovers: []string{"preflight", "preflight-granted", "preflight-refused", "actual", "after-warmup"},
+		RequiredCovers: []string{"preflight", "preflight-granted", "preflight-refused", "actual", "after-warmup", "two-header-lines", "origin-names-the-request-host"},
 	}
 	m["C06"] = &propDef{
 		ID: "C06",
@@ -335,7 +342,7 @@ func properties() map[string]*propDef {
 			add := func(prod, mode, capN, nparts int) {
 				for p := 0; p < nparts; p++ {
 					out = append(out, item{Harness: "H_C05", Cfg: []int{prod, mode, capN, p, nparts},
-						Label: "Produces list, mode (0: <=1 parameter per range, 1: <=2, 2: built-in names + symbolic tail), Accept capacity, length partition"})
+						Label: "Produces list, mode (0: <=1 parameter per range, 1: <=2, 2: built-in names + symbolic tail, 4: registered name + symbolic suffix, then a registered name with a low weight), Accept capacity, length partition"})
 				}
 			}
 			seq := func(cfg, capN int) {
@@ -372,7 +379,10 @@ func properties() map[string]*propDef {
 				add(1, 3, 1, 1)
 				add(13, 0, 4, 1)
 				add(14, 0, 4, 1)
+				add(1, 4, 2, 1)
 			} else {
+				add(1, 4, 2, 1)
+				add(2, 4, 2, 1)
 				add(13, 0, 6, 7)
 				add(14, 0, 6, 7)
 				add(1, 3, 3, 1)
@@ -426,7 +436,7 @@ func properties() map[string]*propDef {
 			"ServeMux is modelled by the Go 1.21 matching rules", "sync.Pool is a LIFO multiset stub"}, commonAssumptions...),
 		Rule:           "entry point x container switch x route switch x outcome kind x provider (quick: one provider per combination chosen by seed; thorough: all three), Accept-Encoding, payload chunks and a pre-set Content-Encoding symbolic",
 		Exhaustive:     true,
-		RequiredCovers: []string{"encoded", "identity", "preset", "escaped", "broken-client", "after-warmup"},
+		RequiredCovers: []string{"encoded", "identity", "preset", "escaped", "broken-client", "after-warmup", "handler-never-writes"},
 	}
 	m["C10"] = &propDef{
 		ID: "C10",
@@ -684,7 +694,7 @@ func properties() map[string]*propDef {
 		ID: "C16",
 		Items: func(tier string, seed int) []item {
 			var out []item
-			label := "entity kind (JSON, XML), request body coding (none, gzip, deflate, gzip in two members), compressor provider, writing call (bit 0 pretty print, 2 WriteEntity, 4 WriteHeaderAndEntity), Content-Type spelling (verbatim, +parameter suffix, absent with default, unregistered with default, unregistered without default), earlier requests (none, 5 kinds of broken body, a good one, two mixes, a good one of the other kind read under another default request content type)"
+			label := "entity kind (JSON, XML), request body coding (none, gzip, deflate, gzip in two members), compressor provider, writing call (bit 0 pretty print, 2 WriteEntity, 4 WriteHeaderAndEntity), Content-Type spelling (verbatim, +parameter suffix, absent with default, unregistered with default, unregistered without default, +suffix / verbatim under a default naming the other type), earlier requests (none, 5 kinds of broken body, a good one, two mixes, a good one of the other kind read under another default request content type)"
 			add := func(c ...int) { out = append(out, item{Harness: "H_C16", Cfg: c, Label: label}) }
 			wmodes := []int{0, 1, 2, 3, 4, 5}
 			if tier == "thorough" {
@@ -692,7 +702,7 @@ func properties() map[string]*propDef {
 					for coding := 0; coding < 4; coding++ {
 						for prov := 0; prov < 3; prov++ {
 							for _, wm := range wmodes {
-								for ct := 0; ct < 5; ct++ {
+								for ct := 0; ct < 7; ct++ {
 									for hist := 0; hist < 11; hist++ {
 										add(kind, coding, prov, wm, ct, hist)
 									}
@@ -710,14 +720,14 @@ func properties() map[string]*propDef {
 					for prov := 0; prov < 3; prov++ {
 						for hist := 0; hist < 11; hist++ {
 							i++
-							add(kind, coding, prov, wmodes[i%6], (i/6)%4, hist) // ctmode 4 (must fail) is in the second product
+							add(kind, coding, prov, wmodes[i%6], []int{0, 1, 2, 3, 5, 6}[(i/6)%6], hist) // ctmode 4 (must fail) is in the second product
 						}
 					}
 				}
 			}
 			for kind := 0; kind < 2; kind++ {
 				for _, wm := range wmodes {
-					for ct := 0; ct < 5; ct++ {
+					for ct := 0; ct < 7; ct++ {
 						i++
 						add(kind, i%4, (i/4)%3, wm, ct, (i/12)%11)
 					}
@@ -727,13 +737,13 @@ func properties() map[string]*propDef {
 		},
 		Bounds: map[string]interface{}{"value": "a struct with an int64 field (all 2^64 values), a string field of <= 3 bytes in a-z, and for JSON an untyped field holding the same int64",
 			"content_type_suffix_bytes": 8, "earlier_requests": "0..2 before the judged one, sharing the compressor provider",
-			"configurations": "quick: 324 of the 7920 combinations (two full sub-products); thorough: all 7920"},
+			"configurations": "quick: 348 of the 11088 combinations (two full sub-products); thorough: all 11088"},
 		Assumptions: append([]string{
 			"TRUSTED, NOT CHECKED: encoding/json, encoding/xml, compress/gzip and compress/zlib themselves. Symbolically the serialisation of a value is an opaque token that the decoder of the same kind turns back into an equal value (a decoder of the other kind, a cut or destroyed token, or a body already read give an error); a compressed stream is an opaque token that the decompressor of the same coding opens (anything else gives an error). Natively (replay, differential) the real packages run. The statement's equality 'for every value in the codecs' common domain' and 'strings with any unicode' are therefore outside this check; what is decided is go-restful's part: reader selection by Content-Type spelling and default, decompressor selection by Content-Encoding, Reset of pooled readers, release bookkeeping, the number-preserving JSON decoder, errors instead of panics, independence from earlier requests",
 			"json numbers decoded into interface{} without UseNumber are modelled as float64: exact for |n| <= 2^53 and even n, arbitrary for odd n beyond",
 			"a Content-Type parameter suffix that itself contains '/' (could spell another registered media type) is left open"}, commonAssumptions...),
 		Rule:           "entity kind x body coding x provider x writing call x Content-Type spelling x history of earlier requests; per combination the value, the parameter suffix and the lengths are symbolic",
-		RequiredCovers: []string{"read-back", "large-integer", "earlier-broken-request", "earlier-good-request", "earlier-request-other-kind", "unusable-content-type", "content-type-with-parameter"},
+		RequiredCovers: []string{"read-back", "large-integer", "earlier-broken-request", "earlier-good-request", "earlier-request-other-kind", "unusable-content-type", "content-type-with-parameter", "other-default-set"},
 	}
 	m["C15"] = &propDef{
 		ID: "C15",
